@@ -97,6 +97,14 @@ class MsSqlImpl(SqlImpl):
         return cls.compile_query(table, query, sqa_expr)
 
     @classmethod
+    def compile_query(cls, table, query, sqa_expr):
+        sel = super().compile_query(table, query, sqa_expr)
+        # mssql complains about OFFSET if there is no ORDER BY (also inside a subquery)
+        if query.offset and not query.order_by and query.select:
+            sel = sel.order_by(sqa_expr[query.select[0]])
+        return sel
+
+    @classmethod
     def compile_ordered_aggregation(cls, *args: sqa.ColumnElement, order_by: list[sqa.UnaryExpression], impl):
         return impl(*args).within_group(*order_by)
 
